@@ -9,7 +9,7 @@
      spell_rt          the theorem, at the level of [object_alts_c]; corollaries for the entry points below *)
 From LV Require Import Base.Bytes Base.Sx Model.Obj Model.Writer Model.Parser Gen.Lex
   Spec.XrefSpec Spec.RefWriter Proofs.LexProofs Proofs.LitStringProofs Proofs.RealProofs Proofs.ObjectRtProofs
-  Proofs.SpellingProofs Proofs.SpellingProofsLit Proofs.SpellingNumProofs.
+  Proofs.SpellingProofs Proofs.SpellingProofsLit Proofs.SpellingProofsLitRaw Proofs.SpellingNumProofs.
 From Coq Require Import Lia.
 Local Open Scope N_scope.
 
@@ -365,9 +365,10 @@ Proof. reflexivity. Qed.
 Lemma denote_dict_eq d y : denote (ODict d) y = ODict (denote_dict d (dict_sts y)).
 Proof. reflexivity. Qed.
 
-(* literal strings covered by SpellingProofsLit (see notes/C02.md: raw balanced parentheses, open finding raw-eol) *)
+(* literal strings: every spelling except the two open findings -- an LF spelled as a raw CR / CR LF (C02-raw-eol)
+   and raw parentheses nested deeper than MAX_BRACKET (C02-deep-parens) *)
 Definition lit_ok (s : bytes) (l : list lpos) : Prop :=
-  (raw_parens_balanced s l 0 = false \/ no_raw_paren s l = true) /\ no_raw_cr s l = true.
+  no_raw_cr s l = true /\ raw_depth_ok s l = true.
 
 Fixpoint spell_wf (o : obj) (y : ostyle) {struct o} : Prop :=
   match o with
@@ -748,7 +749,7 @@ Lemma alts_literal_any elem cont ar n s (l : list lpos) (tc : list eolk) rest :
   lit_ok s l -> (length (w_literal s l tc ++ rest) <= n)%nat ->
   object_alts_c elem cont ar n (w_literal s l tc ++ rest) = POk (OStr s false) rest.
 Proof.
-  intros [H1 H2] Hn. pose proof (literal_any_spelling_partial s l tc rest n H1 H2 Hn) as E.
+  intros [H1 H2] Hn. pose proof (literal_any_spelling s l tc rest n H1 H2 Hn) as E.
   unfold w_literal in *. cbn [app] in *.
   rewrite alts_nonnum by reflexivity. unfold alts_tail. rewrite name_err by reflexivity. rewrite E. reflexivity.
 Qed.
